@@ -1,0 +1,12 @@
+//go:build verif
+
+package mysql
+
+import "database/sql"
+
+// NewIssuanceChainStorageFromDBForVerif wraps an already opened database handle, so that a
+// verification harness can run this storage implementation on an in-process database/sql driver.
+// Only compiled with the build tag verif.
+func NewIssuanceChainStorageFromDBForVerif(db *sql.DB) *IssuanceChainStorage {
+	return &IssuanceChainStorage{db: db}
+}
